@@ -1,0 +1,15 @@
+//go:build verif
+
+package node
+
+import (
+	"github.com/lidofinance/dc4bc/fsm/state_machines"
+	fsmtypes "github.com/lidofinance/dc4bc/fsm/types"
+	"github.com/lidofinance/dc4bc/fsm/types/responses"
+)
+
+// VerifReconstructThresholdSignature exposes reconstructThresholdSignature to the
+// verification tooling (build tag "verif").
+func VerifReconstructThresholdSignature(signingFSM *state_machines.FSMInstance, payload responses.SigningProcessParticipantResponse) ([]fsmtypes.ReconstructedSignature, error) {
+	return reconstructThresholdSignature(signingFSM, payload)
+}
